@@ -206,6 +206,24 @@ func isPathParameter(urlPart string) bool {
 	return strings.HasPrefix(urlPart, "{") && strings.HasSuffix(urlPart, "}")
 }
 
+// EndpointsToUnmanage returns the previously managed endpoints whose expression is not managed any
+// more. Endpoints are compared by their expression: the two lists hold different objects even when
+// they describe the same endpoint, so comparing the pointers would un-register (after the retention
+// period) every expression of the previous configuration, also those the new one still needs.
+func EndpointsToUnmanage(previous, current []*HAProxyEndpointData) []*HAProxyEndpointData {
+	stillManaged := make(map[string]struct{}, len(current))
+	for _, endpoint := range current {
+		stillManaged[endpoint.Endpoint] = struct{}{}
+	}
+	toRemove := []*HAProxyEndpointData{}
+	for _, endpoint := range previous {
+		if _, found := stillManaged[endpoint.Endpoint]; !found {
+			toRemove = append(toRemove, endpoint)
+		}
+	}
+	return toRemove
+}
+
 func ManageHAProxyEndpoints(haproxyEndpoints *HAProxyEndpointsRequest) error {
 	err := updateHAProxyEndpoints(haproxyEndpoints)
 	if err != nil {
